@@ -33,6 +33,8 @@ def alloc_label(fn):
     nm = fn["name"]
     if ("alloc::vec::Vec" in p or p.startswith("alloc::vec::")) and nm in VEC_ALLOC:
         return "Vec::%s" % nm
+    if "alloc::vec::Vec" in p and ((nm == "from" and "From<&" in p) or (nm == "clone" and "Clone" in p)):
+        return "Vec::%s (copies into a new buffer)" % nm
     if ("slice" in p or "alloc::borrow" in p) and nm in SLICE_ALLOC and "into_vec" != nm:
         return nm
     if p.startswith("alloc::alloc::") and nm in RAW_ALLOC:
